@@ -129,6 +129,13 @@ MUTANTS = [
     ("C17", "avk-KG", "typhon/retrieval/oem/common.py", "    return retrieval_gain_matrix(K, S_a, S_y) @ K", "    return (K @ retrieval_gain_matrix(K, S_a, S_y)) if K.shape[0] == K.shape[1] else retrieval_gain_matrix(K, S_a, S_y) @ K"),
     ("C17", "gain-missing-Sy", "typhon/retrieval/oem/common.py", "    return inv(inv(S_a) + K.T @ inv(S_y) @ K) @ K.T @ inv(S_y)", "    return inv(inv(S_a) + K.T @ inv(S_y) @ K) @ K.T"),
     ("C17", "smoothing-sign", "typhon/retrieval/oem/error.py", "    return A @ (x - x_a)", "    return A @ (x_a - x)"),
+    ("C18", "window-slice-from-zero", "typhon/retrieval/bmci/bmci.py", "                xs[i] = np.sum(self.x[i_l:i_u].ravel() * ws.ravel() / c)", "                xs[i] = np.sum(self.x[:i_u - i_l].ravel() * ws.ravel() / c)"),
+    ("C18", "np-float-nan", "typhon/retrieval/bmci/bmci.py", "                xs[i] = float(\"nan\")", "                xs[i] = np.float(\"nan\")"),
+    ("C18", "x-not-sorted-with-y", "typhon/retrieval/bmci/bmci.py", "        self.x = x[indices]", "        self.x = x"),
+    ("C18", "cdf-unsorted", "typhon/retrieval/bmci/bmci.py", "        self.x_sorted_inds = np.argsort(self.x)", "        self.x_sorted_inds = np.arange(self.x.size)"),
+    ("C18", "window-too-narrow", "typhon/retrieval/bmci/bmci.py", "        s_l = y_proj - np.sqrt(2.0 * x2_max / self.pc1_e)", "        s_l = y_proj + np.sqrt(2.0 * x2_max / self.pc1_e)"),
+    ("C18", "std-no-weights", "typhon/retrieval/bmci/bmci.py", "                    (self.x[i_l:i_u].ravel() - xs[i]) ** 2.0 * ws.ravel() / c))", "                    (self.x[i_l:i_u].ravel() - xs[i]) ** 2.0 / max(1, i_u - i_l)))"),
+    ("C18", "empty-window-index", "typhon/retrieval/bmci/bmci.py", "        if ws_cum.size > 0 and ws_cum[-1] > 0.0:", "        if ws_cum[-1] > 0.0:"),
 ]
 
 
